@@ -402,6 +402,11 @@ func (r *CPUSuppress) adjustByCPUSet(cpusetQuantity *resource.Quantity, nodeCPUI
 		cpus = int32(len(oldCPUSet)) + beMaxIncreaseCpuNum
 	}
 	var beCPUSet []int32
+	if len(lsrCpus)+len(lsCpus) == 0 {
+		// every cpu is reserved, exclusive to system qos or owned by LSE pods: nothing can be given to BE
+		klog.Warningf("suppressBECPU skipped, no cpu is available for be pods: all cpus are reserved or exclusively used")
+		return
+	}
 	lsrCpuNums := int32(int(cpus) * len(lsrCpus) / (len(lsrCpus) + len(lsCpus)))
 
 	if lsrCpuNums > 0 {
